@@ -80,6 +80,8 @@ def gen(rng, tier):
             "bystanders": [rng.choice(["retry", "timeout", "poll", "throttle"]) for _ in range(rng.choice([0, 0, 1, 2, 3]))],
             "drop_bystander": rng.random() < 0.5}
     spec["sim"] = runner.draw_sim_cfg(rng, est=600)
+    if any(j["cancel_at"] == "work-exit" for j in jobs):
+        runner.prefer_place(spec["sim"], 0.4)
     spec["sim"]["horizon_s"] = 20000
     return spec
 
